@@ -47,6 +47,33 @@ def run(ctx):
         ctx.add(o)
     for o in unchecked_obligations(ctx, sc):
         ctx.add(o)
+    witnesses(ctx)
+
+
+W_C03 = {
+    "DelineateIsUnsafe": "Event::delineate cannot be called from safe code",
+    "OtherDelineatesUnsafe": "Tags::delineate and Filter::delineate cannot be called from safe code",
+    "EventBytesPrivate": "the byte field of Event is private: safe code obtains an &Event only from the constructors",
+}
+
+
+def witnesses(ctx):
+    import os
+    from .. import witness
+    from ..main import AnalysisError
+    res, out = witness.run(os.environ.get("PV_REPO", "/repo"))
+    anchor = ctx.fn("pocket_types::Event::delineate")
+    for name, what in W_C03.items():
+        r = res.get(name)
+        if r is None or not r["twin"] or not r["fail"]:
+            raise AnalysisError("witness %s did not run: %s" % (name, out[-300:]))
+        if not all(r["twin"]):
+            raise AnalysisError("the compiling twin of witness %s does not compile" % name)
+        ok = all(r["fail"])
+        o = simple_ob("W-SAFETY", anchor, "witness", name, anchor.sp, PROVED if ok else VIOLATION,
+                      what + " (rejected with the expected error code; twin compiles)" if ok else
+                      "safe code can now build an Event/Tags/Filter view over arbitrary bytes: " + what + " no longer holds")
+        ctx.add(o)
 
 
 # ---------------------------------------------------------------------------------------
